@@ -47,6 +47,6 @@ for pid in sorted(PROPS):
 m["checks"] = checks
 m["engines"][0]["serves_properties"] = sorted(PROPS)
 m["hooks"]["baseline_off_cmd"] = "cd /verif && . ./env.sh && cd /repo && \"$VERIF_GO\" test -vet=off -count=1 -timeout 25m ./..."
-m["notes"] = "20 properties claimed (C09-C19, C21-C25, C42-C44, C46), 26 not applicable (pure functions). No hooks in /repo: checks instrument a scratch copy at check time. 30 fix: commits in /repo repair the genuine defects the checks found (DESIGN.md 16); known_findings.json holds only fixed: entries, so no check prints KNOWN-FINDING on the current tree."
+m["notes"] = "20 properties claimed (C09-C19, C21-C25, C42-C44, C46), 26 not applicable (pure functions). No hooks in /repo: checks instrument a scratch copy at check time. 31 fix: commits in /repo repair the genuine defects the checks found (DESIGN.md 16); known_findings.json holds only fixed: entries, so no check prints KNOWN-FINDING on the current tree."
 json.dump(m, open('/verif/MANIFEST.json', 'w'), indent=1)
 print(len(checks), "checks")
